@@ -26,7 +26,7 @@ import ChessVerif.Proofs.SearchGo
 namespace ChessVerif
 namespace Search
 
-variable {σ π : Type}
+variable {σ π : Type} [PsInv σ]
 
 theorem Inf_eq : Inf = 10000 := rfl
 theorem maxPlies_eq : maxPlies = 64 := rfl
@@ -47,6 +47,7 @@ def RootWin (a b : Int) : Prop := WinOK a b ∧ b ≤ rfpSafe
 
 instance (a b : Int) : Decidable (RootWin a b) := by unfold RootWin WinOK; exact inferInstance
 
+omit [PsInv σ] in
 /-- `EvalRange`: the evaluation the search uses is strictly inside the mate band
     `(-Inf+MaxPlies, Inf-MaxPlies)` — a theorem about the clamp, for every raw evaluation. -/
 theorem evaluate_range (c : Comp σ π) (b : Board) :
@@ -58,6 +59,8 @@ theorem evaluate_range (c : Comp σ π) (b : Board) :
   omega
 
 structure ScoreLaws (c : Comp σ π) (Good : Board → Prop) (TTok : σ → Prop) (μ : Board → Nat) : Prop where
+  /-- the table predicate includes the invariant of the persistent state the component laws need -/
+  tt_ok : ∀ ps, TTok ps → PsInv.ok ps
   tt_probe : ∀ ps b ply e, TTok ps → c.ttProbe ps b ply = some e → InR e.value
   tt_store : ∀ ps b d ply m v bd, TTok ps → InR v → TTok (c.ttStore ps b d ply m v bd)
   tt_failHigh : ∀ ps d b p hs, TTok ps → TTok (c.failHigh ps d b p hs)
@@ -91,6 +94,7 @@ theorem inR_mate {ply : Int} (h0 : 0 ≤ ply) (h1 : ply ≤ 127) : InR (wrapS16 
   unfold InR
   rw [Inf_eq, wrapS16_id (by omega) (by omega)]; omega
 
+omit [PsInv σ] in
 theorem inR_eval (c : Comp σ π) (b : Board) : InR (evaluate c b) := by
   have h := evaluate_range c b
   exact ⟨Int.le_of_lt (Int.lt_trans (by decide) h.1), Int.le_of_lt (Int.lt_trans h.2 (by decide))⟩
@@ -115,12 +119,14 @@ theorem winOK_nmp {b : Int} (hb1 : -10000 ≤ b) (hb2 : b ≤ 10000) :
 
 /-! ### the persistent state under `abort` / `incrementNodes` and the small updates -/
 
+omit [PsInv σ] in
 theorem incrementNodes_ps (L : Limits) (s : St σ) : (incrementNodes L s).ps = s.ps := by
   unfold incrementNodes
   split
   · rfl
   · split <;> rfl
 
+omit [PsInv σ] in
 theorem abort_ps (L : Limits) (s : St σ) : (abort L s).2.ps = s.ps := (abort_pv L s).2
 
 /-- `abort` answered `false`: the state it returns is un-aborted, and so was the one it got. -/
@@ -139,20 +145,35 @@ theorem not_aborted_of_mono {L : Limits} {s s' : St σ} (h : Mono L s s') (h' : 
   · rfl
   · rw [h.aborted_mono hs] at h'; cases h'
 
+omit [PsInv σ] in
 @[simp] theorem popFrame_ps (s : St σ) : s.popFrame.ps = s.ps := rfl
+omit [PsInv σ] in
 @[simp] theorem push_ps (s : St σ) (sm : StackMove) : (s.push sm).ps = s.ps := rfl
+omit [PsInv σ] in
 @[simp] theorem pop_ps (s : St σ) : s.pop.ps = s.ps := rfl
+omit [PsInv σ] in
 @[simp] theorem setPv_ps (s : St σ) (pv : Pv.Rows) : (s.setPv pv).ps = s.ps := rfl
+omit [PsInv σ] in
 @[simp] theorem flag_ps (s : St σ) (a : Bool) : (s.flag a).ps = s.ps := rfl
+omit [PsInv σ] in
 @[simp] theorem setPs_ps (s : St σ) (ps : σ) : (s.setPs ps).ps = ps := rfl
+omit [PsInv σ] in
 @[simp] theorem outOfFuel_ps (s : St σ) : s.outOfFuel.ps = s.ps := rfl
+omit [PsInv σ] in
 @[simp] theorem setBoard_aborted (s : St σ) (b : Board) : (s.setBoard b).aborted = s.aborted := rfl
+omit [PsInv σ] in
 @[simp] theorem setPs_aborted' (s : St σ) (ps : σ) : (s.setPs ps).aborted = s.aborted := rfl
+omit [PsInv σ] in
 @[simp] theorem popFrame_aborted' (s : St σ) : s.popFrame.aborted = s.aborted := rfl
+omit [PsInv σ] in
 @[simp] theorem pop_aborted (s : St σ) : s.pop.aborted = s.aborted := rfl
+omit [PsInv σ] in
 @[simp] theorem push_aborted (s : St σ) (sm : StackMove) : (s.push sm).aborted = s.aborted := rfl
+omit [PsInv σ] in
 @[simp] theorem pushFrame_aborted (s : St σ) : s.pushFrame.aborted = s.aborted := rfl
+omit [PsInv σ] in
 @[simp] theorem setPv_aborted (s : St σ) (pv : Pv.Rows) : (s.setPv pv).aborted = s.aborted := rfl
+omit [PsInv σ] in
 @[simp] theorem flag_aborted' (s : St σ) (a : Bool) : (s.flag a).aborted = s.aborted := rfl
 
 end Search
